@@ -343,10 +343,17 @@ func (self *Core) runInstruction(instruction compiler.Instruction) *value.VmInte
 		}
 	case compiler.Opcode_Pow:
 		// TODO: improve performance here
-		r := (*self.pop()).(value.ValueInt).Inner
-		l := (*self.pop()).(value.ValueInt).Inner
-		res := math.Pow(float64(l), float64(r))
-		self.push(value.NewValueInt(int64(res)))
+		rV := *self.pop()
+		lV := *self.pop()
+		switch lV.Kind() {
+		case value.FloatValueKind:
+			self.push(value.NewValueFloat(math.Pow(lV.(value.ValueFloat).Inner, rV.(value.ValueFloat).Inner)))
+		default:
+			r := rV.(value.ValueInt).Inner
+			l := lV.(value.ValueInt).Inner
+			res := math.Pow(float64(l), float64(r))
+			self.push(value.NewValueInt(int64(res)))
+		}
 	case compiler.Opcode_Div:
 		r := *self.pop()
 		l := *self.pop()
